@@ -53,7 +53,9 @@ class ForeverContinueWriteHandler(AbstractWriteHandler):
             logger.warning("While decompiling, tried to generate continue; outside loop!")
             raise FallbackToJump()
         if not self._continue_is_implicit():
-            self.decompiler.source_map_add_opcode(self.start_vertex["op"].offset)
+            if not self.start_vertex["op"].synthetic:
+                # An inserted continue is not an operation of its own, it must not replace the entry of the operation before it.
+                self.decompiler.source_map_add_opcode(self.start_vertex["op"].offset)
             self.decompiler.write_stmnt("continue;  // may be redundant")
         return None
 
